@@ -498,7 +498,8 @@ def _force(x):
     if isinstance(x, Delayed):
         return x.compute()
     if isinstance(x, Array):
-        return x.compute()
+        v = x.compute()
+        return v.item() if isinstance(v, SymArray) and v.ndim == 0 else v
     if isinstance(x, (list, tuple)):
         return type(x)(_force(v) for v in x)
     if isinstance(x, dict):
